@@ -92,6 +92,15 @@ fn main() {
                 let parts: Vec<String> = [&d.years, &d.weeks, &d.days, &d.hours, &d.minutes, &d.seconds].iter().map(|p| part(p)).collect();
                 text.push_str(&format!("\nPARTS {}", parts.join("; ")));
             }
+            if let Ok(rink_core::output::QueryReply::UnitsFor(u)) = &res {
+                let groups: Vec<String> = u.units.iter().map(|g| format!("{}={}", g.category.clone().unwrap_or_else(|| "-".to_string()), g.units.join(","))).collect();
+                let dims: Vec<String> = match &u.of.raw_value { Some(raw) => raw.unit.iter().map(|(k, v)| format!("{}:{}", k, v)).collect(), None => vec![] };
+                text.push_str(&format!("\nUNITSFOR {} | {}", groups.join(";"), dims.join(",")));
+            }
+            if let Ok(rink_core::output::QueryReply::Factorize(f)) = &res {
+                let fs: Vec<String> = f.factorizations.iter().map(|x| x.units.iter().map(|(n, c)| format!("{}^{}", n, c)).collect::<Vec<_>>().join("*")).collect();
+                text.push_str(&format!("\nFACTORIZE {}", fs.join(";")));
+            }
             // span tree and JSON renderings
             use rink_core::output::fmt::TokenFmt;
             match &res {
